@@ -785,19 +785,22 @@ def syntax_check(layouts, scratch, chunk=20):
 
 
 # ------------------------------------------------------------------ run-away guard for calls into the REGEX frontend
-class CpuBudget(Exception):
-    """The guarded call used more than its budget of process CPU time."""
+class CpuBudget(BaseException):
+    """The guarded call used more than its budget of process CPU time.  Derived from BaseException so that the
+    `except Exception` clauses inside fparser / Loki cannot swallow it."""
 
 
 @contextlib.contextmanager
 def cpu_guard(seconds):
-    """Raise CpuBudget inside the body once it has used `seconds` of *process CPU time* (ITIMER_VIRTUAL).
-    Loki's own regex timeout is wall-clock based and therefore not reproducible on a loaded machine; the checks
-    disable it (config['regex-frontend-timeout'] = 0) and use this guard instead.  Main thread only."""
+    """Raise CpuBudget inside the body once it has used `seconds` of *process CPU time* (ITIMER_VIRTUAL), and again
+    every 0.25 s of CPU time after that until the exception has left the body (a one-shot signal can get lost in a
+    `finally`/`except` of the code under test).  Loki's own regex timeout is wall-clock based and therefore not
+    reproducible on a loaded machine; the checks disable it (config['regex-frontend-timeout'] = 0) and use this
+    guard instead.  Main thread only."""
     def handler(signum, frame):
         raise CpuBudget(f'more than {seconds} s of CPU time')
     old = signal.signal(signal.SIGVTALRM, handler)
-    signal.setitimer(signal.ITIMER_VIRTUAL, seconds)
+    signal.setitimer(signal.ITIMER_VIRTUAL, seconds, 0.25)
     try:
         yield
     finally:
